@@ -218,7 +218,8 @@ def run(ctx: Ctx) -> None:
             t = r[1]
             yy, mo, d, h, mi, s = int(t[0:2]), int(t[3:5]), int(t[6:8]), int(t[9:11]), int(t[12:14]), int(t[15:17])
             y7 = (v >> 24) & 0x7F
-            assert y7 % 100 == yy
+            if y7 % 100 != yy:      # the text shows another year than the one in the word: report the text's (the model will differ)
+                y7 = 200 + yy
             return 16 * (3 + 4 * dtf_code(y7, mo, d, h, mi, s))
         return res_code(r, lambda _: 1)
 
